@@ -456,6 +456,14 @@ def resolve_strategy_record_conflicts(base_path, base, decisions):
     #conflict_decisions = [d for d in decisions if d.conflict]
     decisions.decisions = [d for d in decisions if not d.conflict]
 
+    # Drop other changes to a previous nbdime-conflicts field as well,
+    # the field is written as a whole below
+    def changes_only_conflicts_field(d):
+        keys = set(e.key for e in chain(
+            d.local_diff or (), d.remote_diff or (), d.get("custom_diff") or ()))
+        return keys == {"nbdime-conflicts"}
+    decisions.decisions = [d for d in decisions if not changes_only_conflicts_field(d)]
+
     # Record remaining conflicts in field nbdime-conflicts
     conflicts_dict = {
         "local_diff": local_conflict_diffs,
